@@ -328,6 +328,38 @@ def stringlike_harness(e):
     return scenario
 
 
+def empty_bracket_harness(e):
+    """`[]` matches only the empty TUPLE: not "", not b"", not an empty list / frozenset / range,
+    not None, not 0 -- as a field spec, captured, and as the first rule of a MultiPatternMatcher."""
+    from pyoak.match.pattern import MultiPatternMatcher, NodeMatcher
+
+    reset_all()
+    values = [("()", ()), ("''", ""), ("b''", b""), ("[]", []), ("frozenset()", frozenset()), ("range(0)", range(0)), ("None", None), ("0", 0), ("('x',)", ("x",)), ("'x'", "x")]
+    vno = e.choice(len(values), "value")
+    label, value = values[vno]
+    node = build(R("VStr2", {"a": value, "b": "x"}))
+    captured = e.flag("captured")
+    desc = T(["VStr2"], ("a", ("seq", [], None), "c" if captured else None))
+    text = PR.render(desc)
+    scenario: dict[str, Any] = {"value": label, "pattern": text}
+    via = e.pick(["NodeMatcher", "MultiPatternMatcher"], "through")
+    if via == "NodeMatcher":
+        matcher, msg = NodeMatcher.from_pattern(text)
+        if matcher is None:
+            scenario.update(message=msg)
+            e.fail("well-formed-pattern-does-not-compile", scenario=scenario)
+        ok, caps = matcher.match(node)
+        _compare(e, text, desc, node, ok, dict(caps), scenario)
+    else:
+        got = MultiPatternMatcher([("empty", text), ("fallback", "(VStr2)")]).match(node)
+        want = "empty" if (isinstance(value, tuple) and len(value) == 0) else "fallback"
+        if got is None or got[0] != want:
+            scenario.update(got=None if got is None else got[0], expected=want)
+            e.fail("multi-pattern-wrong-rule", scenario=scenario)
+    e.distinct((vno, bool(captured), via))
+    return scenario
+
+
 RULES = [
     ("leafcap", T(["VLeaf"], ("v", None, "x"))), ("mixed_first", T(["VMixed"], ("first", None, "f"))), ("anynode", T("*")),
     ("mixed_tail", T(["VMixed"], ("items", ("seq", [(T(["VLeaf"]), "h")], ("*", "t")), None))), ("many", T(["VMany"], ("items", None, None))),
@@ -412,6 +444,7 @@ def spec(tier: str, seed: int) -> Spec:
     var = "selectors: pattern derivation, node, cache state"
     fams = [Family(f"single[{k}:{k + chunk}]", make_harness(single[k : k + chunk]), variables=var) for k in range(0, len(single), chunk)]
     fams.append(Family("multi-field", make_harness(multi), variables=var))
+    fams.append(Family("empty-bracket-values", empty_bracket_harness, variables="selectors: value (empty tuple, other empty sequences, None, 0, non-empty), captured or not, entry point"))
     fams.append(Family("string-like-values", stringlike_harness, variables="selectors: value (str subclass, str-mixin enum, int subclass, plain), regex"))
     fams.append(Family("similar-pattern-texts", similar_harness, variables="selectors: two regexes that differ in white space, two token layouts, value, entry point"))
     for r0 in range(len(RULES)):
